@@ -295,4 +295,85 @@ def goPipeline (P : Params) (vsname : String) (atoms : List Atom) (edges : List 
   let vs := addVirtualSites P.pre P.backbone vsname atoms
   (vs, selectContacts P (withSites atoms vs) edges contacts)
 
+/-! ### a reused `ComputeStructuralGoBias`: the lookup table as explicit state
+
+`self.__chain_id_to_resnode` is created empty in `__init__` and is never cleared: it survives
+`run_molecule` and `run_system`.  A non-empty table is consulted first and a hit is returned without
+looking at the current residue graph; on a miss the current residues are merged into it. -/
+
+abbrev CacheKey := String × Option Int
+abbrev Cache := List (CacheKey × Nat)
+
+def Cache.get (c : Cache) (k : CacheKey) : Option Nat := (c.find? (fun e => e.1 == k)).map (·.2)
+/-- dict assignment (insertion order is irrelevant for lookups) -/
+def Cache.set (c : Cache) (k : CacheKey) (v : Nat) : Cache := (k, v) :: c.filter (fun e => !(e.1 == k))
+/-- the `for resnode in self.res_graph.nodes` loop -/
+def Cache.merge (c : Cache) (rs : List Residue) : Cache :=
+  (rs.zipIdx).foldl (fun c ri => c.set (ri.1.chain, ri.1.old) ri.2) c
+
+/-- `_chain_id_to_resnode(chain, resid)` with the table `cache` left by earlier calls -/
+def lookupS (cache : Cache) (rs : List Residue) (chain : String) (resid : Int) : Option Nat × Cache :=
+  match (if cache.isEmpty then none else cache.get (chain, some resid)) with
+  | some i => (some i, cache)
+  | none => let c' := cache.merge rs; (c'.get (chain, some resid), c')
+
+/-- the loop body for given lookup results; a stale residue node that is not in the current residue
+graph makes `connected_pairs[resA]` / `res_graph.nodes[resB]` raise KeyError -/
+def classifyIdx (P : Params) (rs : List Residue) (E : List (Nat × Nat)) (c : Contact)
+    (oa ob : Option Nat) : Verdict :=
+  match oa, ob with
+  | some ia, some ib =>
+    match rs[ia]? with
+    | none => .keyerror
+    | some ra =>
+      if (ball E ia P.sep.toNat).contains ib then .skip
+      else
+        match firstBB ra P.backbone, rs[ib]? with
+        | none, _ => .exit
+        | some _, none => .keyerror
+        | some a, some rb =>
+          match firstBB rb P.backbone with
+          | none => .exit
+          | some b =>
+            let d2 := dist2 a.pos b.pos
+            if P.low.below d2 && P.up.above d2 then
+              match firstType ra P.pre c.chainA c.residA, firstType rb P.pre c.chainB c.residB with
+              | some ta, some tb => .cand { ta := ta, tb := tb, d2 := d2, bbA := a.key, bbB := b.key }
+              | _, _ => .keyerror
+            else .skip
+  | _, _ => .skip
+
+def runLoopS (P : Params) (rs : List Residue) (E : List (Nat × Nat)) :
+    List Contact → Cache → LoopState → Outcome × Cache
+  | [], cache, s => (.ok s.out, cache)
+  | c :: rest, cache, s =>
+    let la := lookupS cache rs c.chainA c.residA
+    let lb := lookupS la.2 rs c.chainB c.residB
+    match classifyIdx P rs E c la.1 lb.1 with
+    | .skip => runLoopS P rs E rest lb.2 s
+    | .exit => (.exit, lb.2)
+    | .keyerror => (.keyerror, lb.2)
+    | .cand x => runLoopS P rs E rest lb.2 (step s x)
+
+/-- `run_molecule` of a processor whose table is `cache`; returns the table it leaves behind -/
+def selectContactsS (cache : Cache) (P : Params) (atoms : List Atom) (edges : List (Int × Int))
+    (contacts : List Contact) : Outcome × Cache :=
+  let rs := residuesOf atoms
+  runLoopS P rs (resEdges rs edges) contacts cache { cm := [], out := [] }
+
+/-- one molecule + contact map handed to the processor -/
+structure Job where
+  atoms : List Atom
+  edges : List (Int × Int)
+  contacts : List Contact
+  deriving Inhabited
+
+/-- ONE processor applied to several systems in a row.  `reset = true` is the repaired code
+(table cleared at the start of `run_molecule`), `reset = false` the code as it is. -/
+def runHistory (reset : Bool) (P : Params) : List Job → Cache → List Outcome
+  | [], _ => []
+  | j :: rest, cache =>
+    let r := selectContactsS (if reset then [] else cache) P j.atoms j.edges j.contacts
+    r.1 :: runHistory reset P rest r.2
+
 end C18
